@@ -203,7 +203,45 @@ var c03Tables = []struct {
 }{{0x00, 0, false}, {0x02, 0x1000, true}, {0x40, 0x10, false}, {0x41, 0x10, false}, {0x42, 0x11, false}, {0x46, 0x11, false}, {0x4e, 0x12, false}, {0x5f, 0x12, false}, {0x6f, 0x12, false}, {0x73, 0x14, false}, {0x70, 0x14, false}, {0x4a, 0x11, false}, {0x72, 0x14, false}}
 
 func drawC03Input(t *rapid.T, rec *obs.Recorder) ([]byte, string) {
-	switch gen.Uniform(t, 8, "inputkind") {
+	switch gen.Uniform(t, 10, "inputkind") {
+	case 8, 9:
+		// a CRC-valid PMT / SDT / EIT / TOT whose descriptor loops hold descriptors with a declared length that disagrees
+		// with the body their tag implies (shorter, longer, random body) next to valid ones
+		loop := func(label string) []byte {
+			var body []byte
+			for n := rapid.IntRange(1, 3).Draw(t, label+"_n"); n > 0; n-- {
+				if gen.Bool(t, label+"_bad") {
+					b, _ := badDescriptor(t)
+					body = append(body, b...)
+				} else {
+					body = append(body, ref.EncodeDescriptor(goodDescriptor(t, label+"_good"))...)
+				}
+			}
+			return append([]byte{0xf0 | byte(len(body)>>8), byte(len(body))}, body...)
+		}
+		switch gen.Uniform(t, 4, "mdtable") {
+		case 0:
+			body := append([]byte{0xe1, 0x00}, loop("pi")...)
+			body = append(body, 0x1b, 0xe1, 0x00)
+			body = append(body, loop("es")...)
+			body = append(body, 0x0f, 0xe1, 0x01, 0xf0, 0x00)
+			return fixedSectionStream(0x02, 0x1000, body, true), "section_with_malformed_descriptor"
+		case 1:
+			body := []byte{0x00, 0x01, 0xff, 0x00, 0x05, 0xfd}
+			l := loop("sv")
+			l[0] = l[0]&0x0f | 0x80
+			body = append(body, l...)
+			return fixedSectionStream(0x42, 0x11, body, false), "section_with_malformed_descriptor"
+		case 2:
+			body := []byte{0, 1, 0, 2, 0, 0x4e, 0x12, 0x34, 0xc0, 0x79, 0x12, 0x45, 0x00, 0x01, 0x30, 0x00}
+			l := loop("ev")
+			l[0] = l[0]&0x0f | 0x80
+			body = append(body, l...)
+			return fixedSectionStream(0x4e, 0x12, body, false), "section_with_malformed_descriptor"
+		default:
+			body := append([]byte{0xc0, 0x79, 0x12, 0x45, 0x00}, loop("tot")...)
+			return fixedSectionStream(0x73, 0x14, body, false), "section_with_malformed_descriptor"
+		}
 	case 0:
 		// random bytes
 		n := rapid.IntRange(0, 1500).Draw(t, "n")
@@ -469,5 +507,48 @@ func FuzzC03Sections(f *testing.F) {
 		if v, _, _ := c03Drive(input, c03Cfg{packetSize: 188, reader: 0}); v != "" {
 			t.Fatalf("%s\ntable %#x body %x", v, tb.id, body)
 		}
+	})
+}
+
+// TestC03DescriptorLengths: typed descriptors with every declared length around their real one, inside CRC-valid
+// tables: parsing must never panic, spin or fail to reach the end of the stream.
+func TestC03DescriptorLengths(t *testing.T) {
+	rec := obs.NewRecorder("C03", "descriptor_lengths", "rapid: a typed descriptor tag (uniform over the 23) and a generated value; EVERY declared descriptor_length from 0 to body+3 (body bytes cut or extended accordingly) is placed first in the ES loop of a CRC-valid PMT and in the loops of a CRC-valid SDT and TOT, followed by a valid descriptor: NextData must not panic and must reach ErrNoMorePackets; non-trivial = body >= 3 bytes; distinct by tag and body")
+	defer rec.Flush()
+	rapid.Check(t, func(t *rapid.T) {
+		tag := gen.TypedTags[gen.Uniform(t, len(gen.TypedTags), "tag")]
+		d := gen.DescriptorOfTag(t, tag, 60, "d")
+		if d == nil {
+			d = &astits.Descriptor{Tag: tag}
+		}
+		body := ref.DescriptorBody(d)
+		for l := 0; l <= len(body)+3; l++ {
+			b := append([]byte{}, body...)
+			for len(b) < l {
+				b = append(b, byte(0x80|len(b)))
+			}
+			bad := append([]byte{tag, byte(l)}, b[:l]...)
+			good := []byte{0x52, 0x01, 0x07}
+			loopBody := append(append([]byte{}, bad...), good...)
+			loop := append([]byte{0xf0 | byte(len(loopBody)>>8), byte(len(loopBody))}, loopBody...)
+			pmt := append([]byte{0xe1, 0x00, 0xf0, 0x00, 0x1b, 0xe1, 0x00}, loop...)
+			pmt = append(pmt, 0x0f, 0xe1, 0x01, 0xf0, 0x00)
+			tot := append([]byte{0xc0, 0x79, 0x12, 0x45, 0x00}, loop...)
+			sdtLoop := append([]byte{}, loop...)
+			sdtLoop[0] = sdtLoop[0]&0x0f | 0x80
+			sdt := append([]byte{0x00, 0x01, 0xff, 0x00, 0x05, 0xfd}, sdtLoop...)
+			for _, in := range [][]byte{fixedSectionStream(0x02, 0x1000, pmt, true), fixedSectionStream(0x73, 0x14, tot, false), fixedSectionStream(0x42, 0x11, sdt, false)} {
+				if v, _, _ := c03Drive(in, c03Cfg{packetSize: 188}); v != "" {
+					t.Fatalf("descriptor tag %#x declared length %d (real body %x): %s", tag, l, body, v)
+				}
+			}
+		}
+		rec.Class(fmt.Sprintf("tag_%02x", tag))
+		h := obs.NewHasher()
+		h.Int(int64(tag))
+		h.Bytes(body)
+		rec.Case(h.Sum(), len(body) >= 3, func() interface{} {
+			return map[string]interface{}{"tag": tag, "body": fmt.Sprintf("%x", body), "declared_lengths_tried": len(body) + 4}
+		})
 	})
 }
